@@ -254,7 +254,7 @@ func runC13(p *eng.Prog, r *eng.Report, tier string) {
 	inCore := func(f *eng.Fn) bool {
 		return strings.HasPrefix(f.Short, "stanza.") || strings.HasPrefix(f.Short, "stream.") || strings.HasPrefix(f.Short, "internal/saslerr.")
 	}
-		decodeTargetsAreFresh(c, "C13.30", inCore, 4)
+	decodeTargetsAreFresh(c, "C13.30", inCore, 4)
 	encoderLoopsDoNotFilter(c, "C13.31", inCore, 2)
 	decodersKeepEveryElement(c, "C13.32", inCore, 4)
 	decodedStanzaNotRewritten(c, "C13.25", []string{"stanza.UnmarshalIQError"}, 1)
